@@ -8,6 +8,10 @@ Drives the `warcraft-rs` binary built from the current tree (or `VERIF_CLI=<path
                             byte for byte (the tool stores base names; with and without -p the path of a name is the name with
                             `\\` as directory separator, resp. its last component).  Archives whose names have directories are
                             built with the library (harness/vh-mpq c20_lib --build) for the preserve-paths half.
+  A2 re-extraction          every created archive is extracted again into a directory that already holds same-named files (longer, shorter,
+                            equal length, absent): exit 0 => byte-identical tree.
+  A3 unwritable names       archives made by `mpq create` with an entry named `..\\x`, `c:x`, `sub\\..\\..\\x` (legal Unix base names): the tool
+                            refuses to write them, so without --skip-errors the exit status must be non-zero, with it the rest must be complete.
   B  list / info            `mpq list` line set == Archive::list() names, `mpq info` "Number of files" == get_info().file_count
                             (library view of the same archive by c20_lib --view, a separate process).
   C  sub-command sweep      every sub-command of blp/dbc/m2/wmo/adt/wdt/wdl/mpq on a valid file, truncations and single-field /
@@ -47,11 +51,14 @@ RULE = ("one evaluation = one run of the warcraft-rs binary, judged from outside
         "A: file sets (5-9 files; names with mixed case, spaces, dots, parentheses, no extension, placed in sub-directories; sizes from {0,1,2,511,4095,4096,sector-1,sector,sector+1,3 sectors+17,70001}; "
         "contents random / text / mixed / ramp, seeded by VERIF_SEED) x `mpq create` over the full product {v1,v2,v3,v4} x {none,zlib,bzip2,lzma} x {--with-listfile, default} "
         "x 6 extract variants each, + library-built archives with directory names x {preserve paths, flat}; every extracted file is compared byte for byte with its input. "
+        "A2: every archive of A extracted again (all names / explicit names / --patch branch) into an output directory pre-populated with same-named files whose old contents are longer, shorter, of equal length or absent. "
+        "A3: archives with one entry the tool must refuse to write (`..\\escape.txt`, `c:drive.txt`, `sub\\..\\..\\up2.txt`) x 5 extract variants in per-run sandboxes. "
         "B: `mpq list` (plain, --filter) and `mpq info` of every archive of A against Archive::list()/get_info() computed by a helper process. "
         "C: per format family 2 seeds (quick; all seeds thorough) x {valid, 8 prefix truncations, 8 single-field boundary values / chunk-size / chunk-structure corruptions} "
         "(thorough: 16 + 24) x every sub-command and option class of that family; MPQ: 3 CLI-built archives (+1 with directories) x {valid, 8 truncations, ~12 header-field / table / file-data corruptions} "
         "x {info, info <file>, list, list -l, validate, extract, extract --skip-errors, tree, debug x4, rebuild, compare, patch-chain, db analyze}; "
-        "+ unreadable inputs (missing path, directory) and invalid option values for every family. The failure oracle is the verdict of the library call chain the sub-command wraps, on the same bytes. "
+        "+ unreadable inputs (missing path, directory) and invalid option values for every family. The failure oracle is the verdict of the library call chain the sub-command wraps, on the same bytes; numbers and enumerations printed on exit 0 (record / tile / chunk / vertex / file counts, the full `wdt tiles` set in text, csv and json) "
+        "are compared with the same library object (`facts`, computed by the helper). "
         "distinct_nontrivial = distinct (family, sub-command, input class, option class) tuples executed and judged; a run is non-trivial iff the binary was started and its exit status observed.")
 ASSUME = [
     "the library's verdict is computed by helper binaries (release profile, --cfg warcraft_rs_verif) while the CLI is the debug binary: a debug-only arithmetic panic in the CLI is a non-zero exit and is only counted",
@@ -539,6 +546,155 @@ def slice_dirs(ctx, sink, filesets):
     return archives
 
 
+# ------------------------------------------------- slice A2: extraction into a populated output directory
+
+def slice_overwrite(ctx, sink, archives, filesets):
+    """Re-extraction over an earlier extraction: the output directory already holds files of the same names whose old
+    contents are longer / shorter / of equal length but different / absent.  Exit 0 => every file equals its input."""
+    res = sink.res
+    jobs = []
+    for a in archives:
+        files = filesets[a["set"]]
+        names = [f["name"] for f in files]
+        if a["idx"] % 2 == 0:
+            jobs.append((a, files, {"opt": "overwrite-existing-all", "args": ["-p", "--threads", "2"], "specials": True}))
+        else:
+            jobs.append((a, files, {"opt": "overwrite-existing-names", "args": ["--"] + names, "specials": False}))
+        if a["idx"] % 8 == 0:
+            jobs.append((a, files, {"opt": "overwrite-existing-patch-chain", "args": ["--patch", a["path"]], "specials": True}))
+
+    def run_one(job):
+        a, files, var = job
+        out = os.path.join(ctx.newdir(f"overwrite-{a['idx']}"), "out")
+        os.makedirs(out)
+        rnd = random.Random(f"c20-{ctx.seed}-old-{a['idx']}-{var['opt']}")
+        old = {}
+        for i, f in enumerate(files):
+            mode = ("longer", "shorter", "same-length", "absent")[(i + a["idx"]) % 4]
+            d = f["data"]
+            if mode == "longer":
+                prev = d + rnd.randbytes(1 + rnd.randrange(3000))
+            elif mode == "shorter":
+                prev = d[: len(d) // 2]
+            elif mode == "same-length":
+                prev = bytes(b ^ 0x5A for b in d)
+            else:
+                continue
+            old[f["name"]] = mode
+            with open(os.path.join(out, f["name"]), "wb") as fh:
+                fh.write(prev)
+        var["old"] = old
+        var["cmd"] = ["mpq", "extract", a["path"], "-o", out] + var["args"]
+        return out, ctx.run_cli(var["cmd"])
+
+    outs = pmap(run_one, jobs)
+    for (a, files, var), (out, r) in zip(jobs, outs):
+        want = {f["name"]: f["data"] for f in files}
+        viols, cnt = judge_extract(ctx, a, var, r, out, want)
+        for v in viols:
+            v[2]["previous_content_of_output_files"] = var["old"]
+        for k, n in cnt.items():
+            res.add_counter(k, n)
+        res.add_counter("extractions_over_existing_files", 1)
+        res.add_counter("preexisting_output_files", len(var["old"]))
+        sink.record("mpq", "extract", "valid", var["opt"], r, viols,
+                    sample={"slice": "A2", "cmd": short_cmd(var["cmd"], ctx.scratch), "exit": r["rc"], "output_dir_held": var["old"]},
+                    replay={"slice": "A", "archive": a["idx"], "variant": var["opt"]})
+        shutil.rmtree(os.path.dirname(out), ignore_errors=True)
+
+
+# --------------------------------------- slice A3: names the library reads but the tool will not write
+
+UNWRITABLE = ["..\\escape.txt", "c:drive.txt", "sub\\..\\..\\up2.txt"]
+
+
+def slice_unwritable_names(ctx, sink):
+    """Archives (made by `mpq create`: these are legal Unix base names) holding one entry whose name maps outside the output
+    directory or carries a drive prefix.  The tool refuses to write such an entry; without --skip-errors that is a failed
+    extraction (exit != 0), with --skip-errors every other file must be complete.  Every run has its own sandbox and the
+    output directory sits four levels below it, so a name with `..` components stays inside the sandbox in any case."""
+    res = sink.res
+    configs = [("v1", "zlib", True), ("v2", "none", False), ("v3", "bzip2", False), ("v4", "lzma", True)]
+    if not ctx.thorough:
+        configs = configs[(ctx.seed % 2)::2]
+    plan = []
+    k = 0
+    for (ver, comp, lf) in configs:
+        for hostile in UNWRITABLE:
+            plan.append({"idx": 2000 + k, "version": ver, "comp": comp, "listfile": lf, "hostile": hostile})
+            k += 1
+
+    def create(a):
+        d = ctx.newdir(f"unwritable-{a['idx']}")
+        ind = os.path.join(d, "in")
+        os.makedirs(ind)
+        rnd = random.Random(f"c20-{ctx.seed}-unw-{a['idx']}")
+        model = {"a.txt": b"plain text file\n" * 7, a["hostile"]: b"content of the refused entry " + rnd.randbytes(40), "b.bin": rnd.randbytes(3000)}
+        args = ["mpq", "create", os.path.join(d, "t.mpq")]
+        for nm, data in model.items():
+            with open(os.path.join(ind, nm), "wb") as fh:
+                fh.write(data)
+            args += ["-a", os.path.join(ind, nm)]
+        args += ["--version", a["version"], "-c", a["comp"]] + (["--with-listfile"] if a["listfile"] else [])
+        a.update({"dir": d, "path": os.path.join(d, "t.mpq"), "model": model, "create_args": args,
+                  "desc": {"version": a["version"], "compression": a["comp"], "with_listfile": a["listfile"], "names": list(model)}})
+        a["create"] = ctx.run_cli(args)
+        return a
+
+    pmap(create, plan)
+    ok = []
+    for a in plan:
+        r = a["create"]
+        viols = []
+        if r["rc"] is not None and (r["rc"] != 0 or not os.path.isfile(a["path"])):
+            viols.append(("roundtrip-differs", f"`mpq create` exited {rc_class(r['rc'])} on readable input files (one base name is {a['hostile']!r})", {"cmd": short_cmd(a["create_args"], ctx.scratch), "stderr": r["err"][-400:]}))
+        else:
+            ok.append(a)
+        sink.record("mpq", "create", "valid-unwritable-name", f"{a['version']}-{a['comp']}", r, viols, replay={"slice": "A3", "archive": a["idx"]})
+    jobs = []
+    for a in ok:
+        names = list(a["model"])
+        for opt, args, skip in (("all", [], False), ("all-preserve", ["-p", "--threads", "2"], False), ("all-skip-errors", ["--skip-errors"], True),
+                                ("names", ["--"] + names, False), ("names-skip-errors-preserve", ["--skip-errors", "-p", "--"] + names, True)):
+            jobs.append((a, opt, args, skip))
+
+    def run_one(job):
+        a, opt, args, skip = job
+        sb = ctx.newdir(f"sandbox-{a['idx']}")
+        out = os.path.join(sb, "s1", "s2", "s3", "out")
+        os.makedirs(out)
+        cmd = ["mpq", "extract", a["path"], "-o", out] + args
+        return sb, out, cmd, ctx.run_cli(cmd)
+
+    outs = pmap(run_one, jobs)
+    for (a, opt, args, skip), (sb, out, cmd, r) in zip(jobs, outs):
+        rc = r["rc"]
+        viols = []
+        everything = tree_of(sb)
+        rel_out = os.path.relpath(out, sb)
+        inside = {k[len(rel_out) + 1:]: v for k, v in everything.items() if k.startswith(rel_out + os.sep)}
+        outside = {k: v for k, v in everything.items() if not k.startswith(rel_out + os.sep)}
+        hostile_data = a["model"][a["hostile"]]
+        written_somewhere = any(v == hostile_data for v in everything.values())
+        detail = {"cmd": short_cmd(cmd, ctx.scratch), "archive": a["desc"], "exit": rc, "files_in_output_dir": sorted(inside), "files_elsewhere_in_sandbox": sorted(outside),
+                  "stdout_tail": r["out"][-300:], "stderr_tail": r["err"][-300:]}
+        if outside:
+            res.add_counter("unwritable_name_written_outside_output_dir", 1)  # C11's subject; only counted here
+        if rc == 0 and not skip and not written_somewhere:
+            viols.append(("exit0-but-failed", f"`mpq extract` ({opt}) exited 0 without --skip-errors although the entry {a['hostile']!r} of the archive was not extracted", detail))
+        if rc == 0:
+            others = {n: d for n, d in a["model"].items() if n != a["hostile"]}
+            bad = [n for n, d in others.items() if inside.get(n) != d]
+            res.add_counter("files_compared", len(others))
+            if bad:
+                viols.append(("roundtrip-differs", f"`mpq extract` ({opt}) exited 0 but the writable files {bad} are missing or differ", detail))
+        res.add_counter("unwritable-name|" + ("skip-errors" if skip else "no-skip") + "|" + ("exit0" if rc == 0 else "nonzero"), 1)
+        sink.record("mpq", "extract", "valid-unwritable-name", opt, r, viols,
+                    sample={"slice": "A3", "cmd": short_cmd(cmd, ctx.scratch), "exit": rc, "archive": a["desc"]}, replay={"slice": "A3", "archive": a["idx"], "variant": opt})
+        shutil.rmtree(sb, ignore_errors=True)
+    return ok
+
+
 # ------------------------------------------------------------------------------------ slice B: list / info
 
 def lib_view(ctx, items, tag):
@@ -664,6 +820,58 @@ def stdout_problem(kind, text):
     return None
 
 
+def parse_tiles(kind, text):
+    """`wdt tiles` output -> sorted [[x, y, area]] or a problem string."""
+    try:
+        if kind == "json":
+            return sorted([int(t["x"]), int(t["y"]), int(t["area_id"])] for t in json.loads(text)), None
+        if kind == "csv":
+            rows = [l for l in text.split("\n") if l]
+            if not rows or rows[0] != "x,y,area_id":
+                return None, "no `x,y,area_id` header"
+            return sorted([int(c) for c in l.split(",")] for l in rows[1:]), None
+        tiles = sorted([int(a), int(b), int(c)] for a, b, c in re.findall(r"^\s*\[\s*(\d+),\s*(\d+)\] - Area ID: (\d+)\s*$", text, re.M))
+        m = re.search(r"^Total: (\d+) tiles$", text, re.M)
+        if not m:
+            return None, "no `Total: N tiles` line"
+        if int(m.group(1)) != len(tiles):
+            return None, f"`Total: {m.group(1)} tiles` but {len(tiles)} tile lines"
+        return tiles, None
+    except Exception as ex:  # noqa
+        return None, f"unparseable tile listing: {ex}"
+
+
+def facts_problems(facts, text, stdout_kind):
+    """[(clause, what)] - printed numbers / enumerations against the library's view of the same input."""
+    out = []
+    for f in facts or []:
+        if "tiles" in f:
+            want = sorted([int(a), int(b), int(c)] for a, b, c in f["tiles"])
+            got, prob = parse_tiles(stdout_kind, text)
+            if prob:
+                out.append(("exit0-output-unparseable", prob))
+            elif got != want:
+                missing = [t for t in want if t not in got]
+                extra = [t for t in got if t not in want]
+                out.append(("exit0-output-missing", f"lists {len(got)} of the {len(want)} tiles the library finds (get_tile/has_adt): missing [x,y,area]={missing[:4]} unexpected={extra[:4]}"))
+        elif "lines" in f:
+            lines = sorted(l for l in text.split("\n") if l)
+            if lines != sorted(f["lines"]):
+                out.append(("list-ne-library", f"prints {len(lines)} names, the library lists {len(f['lines'])}: only-cli={sorted(set(lines) - set(f['lines']))[:3]} only-library={sorted(set(f['lines']) - set(lines))[:3]}"))
+        elif "count" in f:
+            n = len(re.findall(f["re"], text, re.M))
+            if n != f["count"]:
+                out.append(("exit0-output-missing", f"prints {n} lines matching /{f['re']}/, expected {f['count']}"))
+        else:
+            m = re.search(f["re"], text, re.M)
+            if not m:
+                if not f.get("optional"):
+                    out.append(("exit0-output-missing", f"no line matching /{f['re']}/ (library value {f['want']})"))
+            elif m.group(1) != f["want"]:
+                out.append(("info-count-ne-library", f"prints {m.group(0).strip()!r}, the library's value is {f['want']}"))
+    return out
+
+
 def judge_sweep(ctx, spec, r, outpath, verify_ok):
     """spec: family, sub, cls, opt, lib (verdict dict), stdout kind, out (kind/path) -> list of violations"""
     viols = []
@@ -685,6 +893,9 @@ def judge_sweep(ctx, spec, r, outpath, verify_ok):
             sp = stdout_problem(spec.get("stdout", "text"), r["out"])
             if sp:
                 viols.append(("exit0-output-missing" if "empty" in sp else "exit0-output-unparseable", f"`{spec['family']} {spec['sub']}` ({spec['opt']}) exited 0 but {sp}", detail))
+            if not viols and spec.get("facts"):
+                for clause, what in facts_problems(spec["facts"], r["out"], spec.get("stdout", "text")):
+                    viols.append((clause, f"`{spec['family']} {spec['sub']}` ({spec['opt']}) exited 0 but {what}", detail))
             if outpath:
                 if not os.path.isfile(outpath) or os.path.getsize(outpath) == 0:
                     viols.append(("exit0-output-missing", f"`{spec['family']} {spec['sub']}` ({spec['opt']}) exited 0 but the output file is {'empty' if os.path.isfile(outpath) else 'absent'}", detail))
@@ -767,7 +978,13 @@ def slice_formats(ctx, sink, only=None):
         fam, sub, cls, opt = run["family"], run["sub"], f["class"], run["opt"]
         lib = dict(run["lib"])
         spec = {"family": fam, "sub": sub, "cls": cls, "opt": opt, "lib": lib, "stdout": run.get("stdout", "text"), "show": short_cmd(args, ctx.scratch),
-                "input": {"format": f["fmt"], "seed_file": f["seed"], "mutation": f["mut"], "size": f["size"]}, "expect": (run.get("out") or {}).get("expect", "")}
+                "input": {"format": f["fmt"], "seed_file": f["seed"], "mutation": f["mut"], "size": f["size"]}, "expect": (run.get("out") or {}).get("expect", ""), "facts": run.get("facts") or []}
+        if spec["facts"] and r["rc"] == 0:
+            res.add_counter("stdout_facts_compared_with_library", len(spec["facts"]))
+            for ft in spec["facts"]:
+                if "tiles" in ft:
+                    res.add_counter("wdt_tile_listings_compared", 1)
+                    res.add_counter("wdt_tiles_compared", len(ft["tiles"]))
         if spec["expect"] and r["rc"] == 0:
             res.add_counter("outputs_compared_with_library_writer", 1)
         vok = verified.get(n)
@@ -914,19 +1131,27 @@ def slice_mpq_sweep(ctx, sink, archives, dir_archives, views, only=None):
         def J(sub, opt, args, lib, **kw):
             jobs.append(dict(x=x, view=view, sub=sub, opt=opt, args=args, lib=lib, **kw))
 
-        J("info", "default", ["mpq", "info", P], oi)
+        fc = ((view or {}).get("info") or {}).get("file_count")
+        lnames = ((view or {}).get("list") or {}).get("names")
+        f_info = [{"re": r"^Number of files: (\d+)$", "want": str(fc)}] if fc is not None else []
+        f_tree = [{"re": r"files: (\d+)", "want": str(fc)}] if fc is not None else []
+        f_debug = [{"re": r"^Files: (\d+)/", "want": str(fc)}] if fc is not None else []
+        f_list = [{"lines": lnames}] if lnames else []
+        f_val = [{"re": r"validation passed - (\d+) files", "want": str(len(lnames)), "optional": True}] if lnames is not None else []
+
+        J("info", "default", ["mpq", "info", P], oi, facts=f_info)
         J("info", "tables", ["mpq", "info", P, "--show-hash-table", "--show-block-table"], oi)
         J("info", "file", ["mpq", "info", P, probe], findv)
         J("info", "absent-file", ["mpq", "info", P, "no such file.xyz"], "err" if oi == "ok" else oi, fail_reason="the named file is not in the archive")
-        J("list", "default", ["mpq", "list", P], oil)
+        J("list", "default", ["mpq", "list", P], oil, facts=f_list)
         J("list", "long", ["mpq", "list", P, "--long"], oil)
-        J("validate", "default", ["mpq", "validate", P], vget(view, "validate"))
+        J("validate", "default", ["mpq", "validate", P], vget(view, "validate"), facts=f_val)
         J("validate", "threads2-checksums", ["mpq", "validate", P, "--threads", "2", "--check-checksums"], vget(view, "validate"))
         J("extract", "all", ["mpq", "extract", P, "-o", "{out}/x", "-p"], vget(view, "extract_all"), extract="strict")
         J("extract", "all-skip-errors", ["mpq", "extract", P, "-o", "{out}/x", "-p", "--skip-errors", "--threads", "2"], oil if vget(view, "extract_all") in ("ok", "err") else vget(view, "extract_all"), extract="skip")
-        J("tree", "default", ["mpq", "tree", P, "--no-color"], oil)
+        J("tree", "default", ["mpq", "tree", P, "--no-color"], oil, facts=f_tree)
         J("tree", "compact-depth", ["mpq", "tree", P, "--no-color", "--compact", "--depth", "2", "--no-external-refs"], oil)
-        J("debug", "all", ["mpq", "debug", P, "--all"], oi)
+        J("debug", "all", ["mpq", "debug", P, "--all"], oi, facts=f_debug)
         J("debug", "hash-table-raw", ["mpq", "debug", P, "--hash-table", "--raw"], oi)
         J("debug", "block-table-raw", ["mpq", "debug", P, "--block-table", "--raw"], oi)
         J("debug", "find", ["mpq", "debug", P, "--find", probe], oi)
@@ -967,7 +1192,9 @@ def slice_mpq_sweep(ctx, sink, archives, dir_archives, views, only=None):
     for n, (j, r) in enumerate(zip(jobs, outs)):
         x, view = j["x"], j["view"]
         spec = {"family": "mpq", "sub": j["sub"], "cls": x["cls"], "opt": j["opt"], "lib": {"v": j["lib"]}, "stdout": j.get("stdout", "text"), "show": short_cmd(j["cmd"], ctx.scratch),
-                "input": {"format": "mpq", "base": x["base"].get("desc"), "mutation": x["mut"]}}
+                "input": {"format": "mpq", "base": x["base"].get("desc"), "mutation": x["mut"]}, "facts": j.get("facts") or []}
+        if spec["facts"] and r["rc"] == 0:
+            res.add_counter("stdout_facts_compared_with_library", len(spec["facts"]))
         if view and j["lib"] in ("err", "panic"):
             key = {"validate": "validate", "extract": "extract_all", "rebuild": "rebuild", "compare": "compare", "patch-chain": "chain", "list": "list", "tree": "list"}.get(j["sub"], "open")
             src = view.get(key) if isinstance(view.get(key), dict) and view.get(key, {}).get("v") != "ok" else (view.get("open") if view.get("open", {}).get("v") != "ok" else view.get(key))
@@ -1182,7 +1409,10 @@ def run(tier, seed, scratch, t0):
     archives, filesets = slice_roundtrip(ctx, sink)
     sup.log(f"[C20] A: {len(archives)} archives, {res.cases} runs ({time.time()-t0:.1f}s)")
     dir_archives = slice_dirs(ctx, sink, filesets)
-    views = slice_list_info(ctx, sink, archives + dir_archives)
+    slice_overwrite(ctx, sink, archives, filesets)
+    unw_archives = slice_unwritable_names(ctx, sink)
+    sup.log(f"[C20] A2/A3 done, {res.cases} runs ({time.time()-t0:.1f}s)")
+    views = slice_list_info(ctx, sink, archives + dir_archives + unw_archives)
     sup.log(f"[C20] B done, {res.cases} runs ({time.time()-t0:.1f}s)")
     gen_files = slice_formats(ctx, sink)
     sup.log(f"[C20] C1 done, {res.cases} runs ({time.time()-t0:.1f}s)")
@@ -1205,9 +1435,13 @@ def replay(rp, scratch):
     res = sup.Result(PROP)
     sink = Sink(res, r["tier"], int(r["seed"]))
     sl = r.get("slice")
-    if sl in ("A", "A-dirs", "B", "C2", "C3", "D"):
+    if sl == "A3":
+        slice_unwritable_names(ctx, sink)
+    elif sl in ("A", "A-dirs", "B", "C2", "C3", "D"):
         archives, filesets = slice_roundtrip(ctx, sink)
         dirs = slice_dirs(ctx, sink, filesets)
+        if sl == "A":
+            slice_overwrite(ctx, sink, archives, filesets)
         views = slice_list_info(ctx, sink, archives + dirs)
         if sl == "C2":
             slice_mpq_sweep(ctx, sink, archives, dirs, views, only={"input": r.get("input")})
